@@ -142,17 +142,19 @@ impl<'tcx> Hx<'tcx> {
                     ("rest", J::Bool(rest.is_some())),
                 ])
             }
-            hir::PatKind::TupleStruct(ref q, pats, _) => {
+            hir::PatKind::TupleStruct(ref q, pats, dd) => {
                 let ps: Vec<J> = pats.iter().map(|x| self.pat(x)).collect();
-                J::O(vec![("k", s("tstruct")), ("path", self.qpath(q, p.hir_id)), ("pats", J::A(ps))])
+                J::O(vec![("k", s("tstruct")), ("path", self.qpath(q, p.hir_id)), ("pats", J::A(ps)),
+                          ("ddpos", match dd.as_opt_usize() { Some(i) => J::I(i as i128), None => J::Null })])
             }
             hir::PatKind::Or(pats) => {
                 let ps: Vec<J> = pats.iter().map(|x| self.pat(x)).collect();
                 J::O(vec![("k", s("or")), ("pats", J::A(ps))])
             }
-            hir::PatKind::Tuple(pats, _) => {
+            hir::PatKind::Tuple(pats, dd) => {
                 let ps: Vec<J> = pats.iter().map(|x| self.pat(x)).collect();
-                J::O(vec![("k", s("tuple")), ("pats", J::A(ps))])
+                J::O(vec![("k", s("tuple")), ("pats", J::A(ps)),
+                          ("ddpos", match dd.as_opt_usize() { Some(i) => J::I(i as i128), None => J::Null })])
             }
             hir::PatKind::Box(x) | hir::PatKind::Deref(x) => J::O(vec![("k", s("deref")), ("pat", self.pat(x))]),
             hir::PatKind::Ref(x, ..) => J::O(vec![("k", s("ref")), ("pat", self.pat(x))]),
